@@ -78,7 +78,11 @@ class C16(HistoryProperty):
         variant = rng.random() < 0.15
         # (the nocache variant of a program equals "caching disabled" only if nothing else in it caches)
         cfg = gen.swarm_cfg(rng, off=("shape_change", "alloptions", "nocache") + (("cached",) if variant else ()), on=("effects", "dataset"))
-        spec = gen.prune(gen.gen_spec(rng, cfg))
+        spec = gen.gen_spec(rng, cfg)
+        # plain cached(...) nodes and other combinators are driven directly too (they see the caller's dictionary object itself)
+        inner = [n["id"] for n in spec["nodes"] if n["k"] in ("cached", "apply", "list", "coalesce", "switch")]
+        spec["roots"] = list(dict.fromkeys(spec["roots"] + rng.sample(inner, min(len(inner), rng.randint(0, 2)))))
+        spec = gen.prune(spec)
         for n in spec["nodes"]:
             if n["k"] == "dataset":
                 n["cache"] = "recording"
@@ -89,7 +93,8 @@ class C16(HistoryProperty):
         for op in ops:
             op["sw"] = {"cache": rng.choice(CACHE_SW), "effects": rng.choice(EFFECT_SW), "logging": rng.choice(LOG_SW),
                         "nest": rng.random() < 0.5, "toggle_ds": rng.choice(names)}
-        return {"cfg": cfg, "spec": spec, "ops": ops, "nocache_variant": variant}
+        # the caller keeps ONE options dictionary and edits it in place between evaluations (in a third of the histories)
+        return {"cfg": cfg, "spec": spec, "ops": ops, "nocache_variant": variant, "inplace": rng.random() < 0.33}
 
     @staticmethod
     def _family(spec, nid):
@@ -134,6 +139,7 @@ class C16(HistoryProperty):
                 ref = World(spec, record=False)
                 vectors = set()
                 ref_hit = False
+                shared_o = {}
                 with lrt.handle(LogRequest, rec):
                     for i, op in enumerate(case["ops"]):
                         sw = op["sw"]
@@ -159,7 +165,15 @@ class C16(HistoryProperty):
                         with contextlib.ExitStack() as st:
                             for c in ctxs:
                                 st.enter_context(c())
-                            out = w.do({"op": "evaluate", "node": op["node"], "o": o})
+                            if case.get("inplace"):
+                                shared_o.clear()
+                                shared_o.update(copy.deepcopy(o))
+                                w.op_index += 1
+                                w.calls_in_op = {}
+                                with w.active():
+                                    out = w._eval_op("evaluate", {"op": "evaluate", "node": op["node"], "o": o}, o_obj=shared_o)
+                            else:
+                                out = w.do({"op": "evaluate", "node": op["node"], "o": o})
                         delta = w.diff_counts(before, w.counts)
                         n_sink, n_seam = len(sink.records), len([x for x in seam if x[0] == logging.INFO])
                         for nid in toggled:
